@@ -290,6 +290,35 @@ Theorem C01_partition_file_points :
 Proof. exact file_partition_points. Qed.
 Print Assumptions C01_partition_file_points.
 
+From T4V Require Import Base.Scalar.
+From T4V Require C13.Model.
+From T4V Require Import C01.LinkC13.
+
+(* LINK C13 -> C01: the hypothesis "merged surfaces are the same function" is
+   discharged for the renumbering remove_duplicate_surfaces produces (C13's model,
+   at R) by C13_dedup_merges_equal.  [surfs] is C13's descriptor table, [dval] ANY
+   meaning of descriptors, [fval] the surface functions read off the table. *)
+Theorem C01_partition_file_points_linked :
+  forall (dval : C13.Model.desc R -> point -> R) (surfs : list (Z * C13.Model.desc R))
+         (fval : Z -> point -> R) (u0 u1 : Z),
+  (forall k d, In (k, d) surfs -> forall p, fval k p = dval d p) ->
+  (forall p, fval u0 p = (px p - 1)%R) -> (forall p, fval u1 p = (px p + 1)%R) ->
+  forall (skip_dedup : bool) (cden : point -> Z -> bool) cells matching fuel todo cnt0 s' skipped d' p c,
+  0 < u0 -> 0 < u1 -> off_surfaces fval p ->
+  (forall c g orig, lookup c cells = Some (g, orig) ->
+     leaves_ok (msurf_ok matching) g /\ cden p c = mden (sigma_of fval p) (cden p) matching g) ->
+  NoDup todo -> (forall k, In k todo -> k <= cnt0) ->
+  convert_cells fuel cells matching u0 u1 todo (mkSt cnt0 [] [] []) = Ok s' ->
+  prune u0 u1 (if skip_dedup then None
+               else Some (snd (C13.Model.remove_duplicate_surfaces RS surfs))) (vols s') = Ok d' ->
+  (forall k, In k skipped -> k <= cnt0 /\ ~ In k todo) ->
+  cden p c = true -> (forall c', In c' todo -> cden p c' = true -> c' = c) ->
+  exists T, read_table (print_table skipped d') = Some T /\
+            (In c todo -> forall k, pt_in fval T p k <-> k = c) /\
+            (~ In c todo -> forall k, ~ pt_in fval T p k).
+Proof. exact partition_file_points_linked. Qed.
+Print Assumptions C01_partition_file_points_linked.
+
 (* non-vacuity: five cells (three converted, one of importance 0, one filler kept
    by reference), a union without pure-intersection member, a surface of
    reversed side; every hypothesis of C01_cells / C01_partition holds, with a
